@@ -106,6 +106,10 @@ def lam_copy(dst_data, dst_off, src_data, src_off, cnt, dstep=1, sstep=1):
 def call_method(ex, objtype, name, objn, arrow, args, n, decl):
     t = re.sub(r'\bconst\b', '', objtype).strip()
     t = t.rstrip('&').strip()
+    from . import containers
+    r = containers.method(ex, t, name, objn, arrow, args, n)
+    if r is not NotImplemented:
+        return r
     if re.match(r'^(std::)?(__\w+::)?(vector|array|initializer_list)<', t):
         return vector_method(ex, t, name, objn, arrow, args, n)
     if re.match(r'^(std::)?(__)?shared_ptr(_access)?<', t) or re.match(r'^(std::)?unique_ptr<', t):
@@ -341,6 +345,10 @@ def range_to_vec(ex, a, b, el, n):
 # -------------------------------------------------------------------------------------------------
 def ctor_model(ex, t, sh, ctype):
     tt = re.sub(r'\bconst\b', '', t).strip()
+    from . import containers
+    cm = containers.ctor_model(ex, tt, sh, ctype)
+    if cm is not None:
+        return cm
     if sh[0] == 'vec':
         return vec_ctor
     if sh[0] == 'struct' and sh[1] == 'std::pair':
@@ -489,6 +497,33 @@ def _memcpy(ex, args, n):
         ex.oblige('overlap', 'memcpy', z3.Or(cnt == 0, d.off + cnt <= s.off, s.off + cnt <= d.off), n)
     nd = lam_copy(dv.data, d.off, sv.data, s.off, cnt)
     ex.write(d.path, VecVal(dv.len, nd, el))
+    return d
+
+
+@free('memset')
+def _memset(ex, args, n):
+    """memset(p, 0, nbytes) over real_t / cmplx_t / int32 storage: zero fill of whole elements (all-zero bytes are +0.0 / 0)"""
+    d, v, nb = ex.ev(args[0]), ex.ev(args[1]), ex.ev(args[2])
+    if not isinstance(d, PtrVal) or d.path is None:
+        raise Unsupported('memset of non-vector pointer')
+    if not (z3.is_int_value(z3.simplify(v)) and z3.simplify(v).as_long() == 0):
+        raise Unsupported('memset with a non-zero byte')
+    dv = ex.read(d.path)
+    el = dv.el
+    size = {('real',): 8, ('int', 32, True): 4}.get(el)
+    if size is None and el[0] == 'struct' and el[1] == 'dsplib::cmplx_t':
+        size = 16
+    if size is None:
+        raise Unsupported('memset element type')
+    cnt = z3.Int(ex.fresh_name('cnt'))
+    ex.assume(z3.And(cnt * size <= nb, nb < (cnt + 1) * size))
+    ex.oblige('bounds', 'memset.size', z3.And(nb == cnt * size, cnt >= 0), n)
+    ex.oblige('bounds', 'memset.dst', z3.Or(cnt == 0, z3.And(d.off >= 0, d.off + cnt <= dv.len)), n)
+    j = z3.Int('j!ms')
+    def mk(a):
+        zr = z3.RealVal(0) if a.range() == z3.RealSort() else z3.IntVal(0)
+        return z3.Lambda([j], z3.If(z3.And(j >= d.off, j < d.off + cnt), zr, z3.Select(a, j)))
+    ex.write(d.path, VecVal(dv.len, tmap(mk, dv.data), el))
     return d
 
 
@@ -686,6 +721,9 @@ def _iter_cmp(op):
             a = ex.read(a.path)
         if isinstance(b, RefVal):
             b = ex.read(b.path)
+        if isinstance(a, SVal) and a.cls == 'std::map_iter' and op in ('==', '!='):
+            from . import containers
+            return containers.map_iter_compare(ex, 'operator' + op, args, n)
         if isinstance(a, PtrVal) and isinstance(b, PtrVal):
             return ex.ptr_binop(op, a, b, n)
         if isinstance(a, PtrVal) or isinstance(b, PtrVal):
